@@ -53,10 +53,9 @@ class State:
         from .. import legacy as _legacy
 
         self.aliases = {}
-        try:
-            pairs, _, _ = _legacy.chain(ctx.model)
-        except AnalysisError:
-            pairs = []
+        # (an unrecognised legacy table is an analysis error of this rule too: without the aliases
+        # 'Mm3' would be read as megametre cubed and reported as wrong)
+        pairs, _, _ = _legacy.chain(ctx.model)
         for old, new, _ in pairs:
             m = unitgrammar.NUMPREFIX.match(old)
             if m and m.group(2) in self.registered and new in self.registered:
